@@ -19,12 +19,13 @@ from vlib.pipeline import Case, driver_bin
 
 PID = "C09"
 GEN = []
-LEAN = ["Ymq.Props.C09", "Ymq.Props.C07C09"]
+LEAN = ["Ymq.Props.C09", "Ymq.Props.C07C09", "Ymq.Props.C09Ext"]
 AUDIT = "Ymq.Audit.C09"
 THEOREMS = ["Ymq.C09.reduce64_inv", "Ymq.C09.step_gcd", "Ymq.C09.gcd_internal_spec", "Ymq.C09.gcd_terminates",
             "Ymq.C09.big_gcd_spec", "Ymq.C09.inv_mod_spec", "Ymq.C09.mulword_no_panic", "Ymq.C09.no_panic",
             "Ymq.C09.no_panic_ext", "Ymq.C09.no_panic_ext_any_width", "Ymq.C09.no_panic_ext_domain_sharp",
-            "Ymq.C09.inv_mod_no_panic", "Ymq.C09.zmodn_inv_spec", "Ymq.C09.zmodn_gcd_spec"]
+            "Ymq.C09.inv_mod_no_panic", "Ymq.C09.zmodn_inv_spec", "Ymq.C09.zmodn_gcd_spec",
+            "Ymq.C09.reduce64_first_row", "Ymq.C09.no_panic_ext_wide", "Ymq.C09.inv_mod_total"]
 PROFILES = ["release", "chk"]
 TIMEOUT = 20.0
 W = 1 << 64
